@@ -38,12 +38,15 @@ func memReplay(h []memOp, pregrow int) (step int, msg string) {
 		}
 	}()
 	mems := []*memory.Type{memory.New()}
+	memory.VerifMinStack = 0
 	if pregrow > 0 {
-		// grow the main stack once, beforehand: it never reallocates afterwards
+		// grow the main stack once, beforehand: it never reallocates afterwards; clones get stacks of that size as well
 		for i := 0; i < pregrow; i++ {
 			mems[0].Push(value.Nil)
 		}
 		mems[0].ResetSP()
+		memory.VerifMinStack = pregrow
+		defer func() { memory.VerifMinStack = 0 }()
 	}
 	widths := [][]int{{}}
 	cur := 0
